@@ -19,7 +19,7 @@ from typing import (
 )
 from collections import deque
 
-from ._typing import ACloseable, R, T, AnyIterable, ADD
+from ._typing import R, T, AnyIterable, ADD
 from ._utility import public_module
 from ._core import (
     ScopedIter,
@@ -180,7 +180,7 @@ class chain(AsyncIterator[T]):
         self._owned_iterators = tuple(
             iterable  # type: ignore[misc]
             for iterable in iterables
-            if isinstance(iterable, AsyncIterator) and isinstance(iterable, ACloseable)
+            if isinstance(iterable, AsyncIterator) and hasattr(iterable, "aclose")
         )
 
     @classmethod
@@ -400,7 +400,7 @@ async def tee_peer(
                 peers.pop(idx)
                 break
         # if we are the last peer, try and close the iterator
-        if not peers and isinstance(iterator, ACloseable):
+        if not peers and hasattr(iterator, "aclose"):
             await iterator.aclose()
 
 
@@ -494,7 +494,7 @@ class Tee(Generic[T]):
         # unregister their buffers and close the iterator on their behalf
         if self._buffers:
             self._buffers.clear()
-            if isinstance(self._iterator, ACloseable):
+            if hasattr(self._iterator, "aclose"):
                 await self._iterator.aclose()
 
 
@@ -566,7 +566,7 @@ async def zip_longest(
     finally:
         await fill_iter.aclose()  # type: ignore
         for iterator in async_iters:
-            if isinstance(iterator, ACloseable):
+            if hasattr(iterator, "aclose"):
                 await iterator.aclose()
 
 
@@ -617,7 +617,7 @@ class _GroupByState(Generic[R, T_co]):
         """Close the underlying iterator"""
         if (group := self.current_group) is not None:
             await group.aclose()
-        if isinstance(self._iterator, ACloseable):
+        if hasattr(self._iterator, "aclose"):
             await self._iterator.aclose()
 
 
